@@ -144,6 +144,25 @@ def lean_prepare(ctx, required, modules=None, extra_gens=None):
             if r.returncode != 0 or not ctx.theorems:
                 ctx.unshown.append('axiom audit failed for %s' % prop)
                 ctx.notes.append(r.stdout[-2000:])
+        # Witness search when the tie to the source is broken (an extraction anchor no longer matches, or the
+        # models / proofs do not build against the regenerated constants): the driver is rebuilt with the
+        # reference copy of Gen (genref/, the constants and tables of the last tree on which everything
+        # checked), so that the differential run and the predicates below can look for a concrete input on
+        # which the changed implementation leaves the reference model.  The property stays "no longer
+        # shown" whatever the search finds.
+        if any(u.startswith(('extract:', 'driver build failed', 'proof of')) for u in ctx.unshown):
+            ref = os.path.join(VERIF, 'genref')
+            if os.path.isdir(ref):
+                for f in os.listdir(ref):
+                    if f.endswith('.lean'):
+                        shutil.copy(os.path.join(ref, f), os.path.join(LEAN, 'QsmtpModel', 'Gen', f))
+                r = sh(['lake', 'build', 'qsdrv'], cwd=LEAN)
+                if r.returncode == 0:
+                    ctx.driver = os.path.join(ctx.scratch, 'qsdrv')
+                    shutil.copy(os.path.join(LEAN, '.lake', 'build', 'bin', 'qsdrv'), ctx.driver)
+                    ctx.notes.append('witness search: driver rebuilt with the reference constants (genref/)')
+                else:
+                    ctx.driver = None
     finally:
         fcntl.flock(lock, fcntl.LOCK_UN)
         lock.close()
